@@ -7,6 +7,7 @@ import (
 	"strconv"
 	"strings"
 	"unicode"
+	"unicode/utf8"
 
 	"github.com/emersion/go-imap/v2"
 	"github.com/emersion/go-imap/v2/internal/utf7"
@@ -153,8 +154,16 @@ func (enc *Encoder) Mailbox(name string) *Encoder {
 	if strings.EqualFold(name, "INBOX") {
 		return enc.Atom("INBOX")
 	} else {
-		name, _ = utf7.Encoding.NewEncoder().String(name)
-		return enc.String(name)
+		if !utf8.ValidString(name) {
+			enc.setErr(fmt.Errorf("imapwire: mailbox name %q is not valid UTF-8", name))
+			return enc
+		}
+		encoded, err := utf7.Encoding.NewEncoder().String(name)
+		if err != nil {
+			enc.setErr(fmt.Errorf("imapwire: cannot encode mailbox name %q: %v", name, err))
+			return enc
+		}
+		return enc.String(encoded)
 	}
 }
 
@@ -206,7 +215,10 @@ func (enc *Encoder) Number(v uint32) *Encoder {
 }
 
 func (enc *Encoder) Number64(v int64) *Encoder {
-	// TODO: disallow negative values
+	if v < 0 {
+		enc.setErr(fmt.Errorf("imapwire: cannot encode negative number %v", v))
+		return enc
+	}
 	return enc.writeString(strconv.FormatInt(v, 10))
 }
 
